@@ -3,7 +3,7 @@
    A case is a scripted two-endpoint session: setup, then steps; every step
    carries what the real cedar Streams were observed to do. *)
 From Coq Require Import List NArith ZArith Bool.
-From Cedar Require Export Lib.Bytes Lib.Sym gen.Consts Model.Frame Model.FrameSpec.
+From Cedar Require Export Lib.Bytes Lib.Sym gen.Consts Model.Frame Model.FrameSpec Model.File.
 Import ListNotations.
 Local Open Scope N_scope.
 
@@ -55,7 +55,7 @@ Fixpoint all2 {A B} (f : A -> B -> bool) (a : list A) (b : list B) : bool :=
   end.
 
 (* receiver operations *)
-Inductive rop := RComplete | RFrameWE | RFrame | RStart | RRead (n : N) | REnd | RMsgAll | RSecret.
+Inductive rop := RComplete | RFrameWE | RFrame | RStart | RRead (n : N) | REnd | RMsgAll | RSecret | RGetFile.
 Inductive rres := ROk (x : xbytes) (flag : N) | ROkU | RErr.
 
 Fixpoint recv_msg_all (s : stream) (acc : bytes) (fs : list frame) : stream * sres bytes * list frame :=
@@ -105,6 +105,8 @@ Definition run_rop (s : stream) (fs : list frame) (o : rop) : stream * list fram
               | (s1, SOk _, r) => (s1, r, MUnit) | (s1, SErr _, r) => (s1, r, MFail) end
   | RRead n => match read_bytes s n fs with
                | (s1, SOk b, r) => (s1, r, MBytes b 255) | (s1, SErr _, r) => (s1, r, MFail) end
+  | RGetFile => match get_file s fs with
+                | (s1, SOk b, r) => (s1, r, MBytes b 255) | (s1, SErr _, r) => (s1, r, MFail) end
   | REnd => match end_read s with
             | (s1, SOk _) => (s1, fs, MUnit) | (s1, SErr _) => (s1, fs, MFail) end
   end.
